@@ -1154,10 +1154,10 @@ class bpch1(bpch_base):
         self.Bp = geos_hybi[self.vertgrid]
 
         if max(layerns) > self.Ap.size:
-            warn("vertgrid selected (%s) and output layers are not " +
-                 "consistent; update to GEOS-5-NATIVE (e.g., bpch(..., " +
-                 "vertgrid='GEOS-5-NATIVE') -f \"bpch," +
-                 "vertgrid='GEOS-5-NATIVE'\"" % vertgrid)
+            warn(("vertgrid selected (%s) and output layers are not " +
+                  "consistent; update to GEOS-5-NATIVE (e.g., bpch(..., " +
+                  "vertgrid='GEOS-5-NATIVE') -f \"bpch," +
+                  "vertgrid='GEOS-5-NATIVE'\"") % vertgrid)
 
         layerkeys = ['layer_bounds'] + ['layer%d' % myl for myl in layerns]
         keys.extend(layerkeys)
